@@ -1,7 +1,8 @@
 (** C04 — balanced networks give element- and charge-conserving generated dynamics.
     Property theorems only. *)
 From Coq Require Import List Arith Bool String ZArith Ring.
-From Naunet Require Import Lib.ListX Model.OdeGen Proofs.OdeRefine Proofs.OdeSem.
+From Coq Require Import NArith.
+From Naunet Require Import Lib.ListX Lib.PyStr Model.OdeGen Model.Species Model.Physics Proofs.OdeRefine Proofs.OdeSem Proofs.PhysicsProofs.
 Import ListNotations.
 
 Section AnyRing.
@@ -26,7 +27,40 @@ Theorem weighted_sum_of_rows : forall (E : env R) (w : nat -> R) (m : nat) (a : 
   sumn R rO radd m (fun s => rmul (w s) (ev_eqn R rO rI radd rmul ropp E (at_pos s a)))
   = wsum_adds R rO rI radd rmul ropp E w m a.
 Proof. exact (weighted_rows R rO rI radd rmul rsub ropp Rth). Qed.
+
+(* the helper clause: the statement GetElementAbund returns for an element is, for
+   every abundance vector, the count-weighted sum of the abundances of all species
+   (ofN is the value of the literal "n.0"; absent elements count 0) ... *)
+Theorem helper_element_total : forall (ofN : N -> R) (y : nat -> R) (el : string) (sp : list hspec),
+  ofN 0%N = rO ->
+  ev_terms R rO radd rmul ofN y (elem_terms el sp) = wsum R rO radd rmul ofN y el 0 sp.
+Proof. intros ofN y el sp H0. exact (element_abund_lemma R rO rI radd rmul rsub ropp Rth ofN H0 y el sp). Qed.
+
+(* ... and the mantle density is the sum over the ice species *)
+Theorem helper_mantle : forall (y : nat -> R) (sp : list hspec),
+  ev_mantle R rO radd y (mantle_terms sp) = msum R rO radd y 0 sp.
+Proof. intros y sp. exact (mantle_lemma R rO rI radd rmul rsub ropp Rth y sp). Qed.
 End AnyRing.
+Print Assumptions helper_element_total.
+Print Assumptions helper_mantle.
+
+(* the emitted terms: exactly the species holding the element, each once, with its count *)
+Theorem helper_terms_exact : forall el sp n i,
+  In (n, i) (elem_terms el sp) <->
+  exists s, nth_error sp i = Some s /\ n = count_of el (h_counts s) /\ n <> 0%N.
+Proof. exact element_terms_exact_lemma. Qed.
+Print Assumptions helper_terms_exact.
+
+(* non-vacuity: H, H2, #H2O, CO over Z: the H total is y0 + 2 y1 + 2 y2 *)
+Theorem helper_example :
+  let sp := [ {| h_alias := "HI"; h_counts := [("H"%string, 1%N)]; h_surface := false |};
+              {| h_alias := "H2I"; h_counts := [("H"%string, 2%N)]; h_surface := false |};
+              {| h_alias := "GH2OI"; h_counts := [("H"%string, 2%N); ("O"%string, 1%N)]; h_surface := true |};
+              {| h_alias := "COI"; h_counts := [("C"%string, 1%N); ("O"%string, 1%N)]; h_surface := false |} ] in
+  elem_text "H" sp = "return 1.0*y[IDX_HI] + 2.0*y[IDX_H2I] + 2.0*y[IDX_GH2OI] + 0.0;"%string /\
+  elem_terms "O" sp = [(1%N, 2); (1%N, 3)] /\ mantle_terms sp = [2].
+Proof. vm_compute. repeat split; reflexivity. Qed.
+Print Assumptions helper_example.
 Print Assumptions conservation.
 Print Assumptions weighted_sum_of_rows.
 
